@@ -46,6 +46,8 @@ type WrCase struct {
 	// Pre: an exchange made first through the SAME built chain (its answer is not compared): wrappers
 	// must not carry state from one exchange into the next
 	Pre []WrOp `json:"pre,omitempty"`
+	// AbortOnErr: the handler does what httputil.ReverseProxy does when a Write fails: panic(http.ErrAbortHandler)
+	AbortOnErr bool `json:"abortonerr,omitempty"`
 }
 
 var wrCT = []string{"application/json", "text/html; charset=utf-8", "text/plain", "image/png", "application/json; charset=utf-8", "text/css", "application/octet-stream"}
@@ -89,6 +91,10 @@ func scriptedHandler(script []WrOp, probe *handlerProbe) http.Handler {
 
 // scriptedHandler2 plays [pre] for requests to /pre and [script] otherwise
 func scriptedHandler2(script, pre []WrOp, probe *handlerProbe) http.Handler {
+	return scriptedHandler3(script, pre, probe, false)
+}
+
+func scriptedHandler3(script, pre []WrOp, probe *handlerProbe, abortOnErr bool) http.Handler {
 	return http.HandlerFunc(func(w http.ResponseWriter, r *http.Request) {
 		script := script
 		if r.URL.Path == "/pre" {
@@ -109,7 +115,9 @@ func scriptedHandler2(script, pre []WrOp, probe *handlerProbe) http.Handler {
 			case "head":
 				w.WriteHeader(op.Code)
 			case "write":
-				w.Write(detBytes(off, op.N))
+				if _, err := w.Write(detBytes(off, op.N)); err != nil && abortOnErr && r.URL.Path != "/pre" {
+					panic(http.ErrAbortHandler)
+				}
 				off += op.N
 			case "flush":
 				if f, ok := w.(http.Flusher); ok {
@@ -226,12 +234,12 @@ func sameWire(a, b wireResp) bool {
 func runWrCase(c WrCase) (string, map[string]int) {
 	stats := map[string]int{}
 	p1, p2 := &handlerProbe{}, &handlerProbe{}
-	chained, err := buildWrChain(c, scriptedHandler2(c.Script, c.Pre, p1))
+	chained, err := buildWrChain(c, scriptedHandler3(c.Script, c.Pre, p1, c.AbortOnErr))
 	if err != nil {
 		panic(fmt.Sprintf("chain: %v", err))
 	}
 	through := wrExchange(chained, p1, c)
-	direct := wrExchange(scriptedHandler2(c.Script, c.Pre, p2), p2, c)
+	direct := wrExchange(scriptedHandler3(c.Script, c.Pre, p2, c.AbortOnErr), p2, c)
 	same := sameWire(through.resp, direct.resp)
 	// observation vector
 	obs := []int{b2i(through.called), through.read, b2i(same), through.resp.Status, through.ct, through.ce, through.decoded, len(through.resp.Interim)}
@@ -313,7 +321,10 @@ func runWrCase(c WrCase) (string, map[string]int) {
 	if !through.called {
 		stats["handler_not_called"]++
 	}
-	return fmt.Sprintf("mkWrCase %s %s %s %d %s %s %s", List(chain), Bytes(ae), declared, actual, B(c.Method == "HEAD"), List(script), IList(obs)), stats
+	if c.AbortOnErr {
+		stats["abort_on_write_error"]++
+	}
+	return fmt.Sprintf("mkWrCase %s %s %s %d %s %s %s %s", List(chain), Bytes(ae), declared, actual, B(c.Method == "HEAD"), B(c.AbortOnErr), List(script), IList(obs)), stats
 }
 
 func b2i(b bool) int {
@@ -434,6 +445,17 @@ func genWrCase(g *Rng) WrCase {
 	if g.Chance(6) { // disordered scripts (not well-formed): late header, second WriteHeader
 		c.Script = append(c.Script, WrOp{K: "head", Code: 500})
 	}
+	// the handler aborts on a failed Write, as the reverse proxy does; only where the refusal can only come from size_limit
+	// (it is the innermost plugin, the status allows a body, a declared length is the real one)
+	if c.Chain[len(c.Chain)-1].Name == "size_limit" && status != 204 && status != 304 && c.Method != "HEAD" && g.Chance(40) {
+		ok := true
+		for _, op := range c.Script {
+			if op.K == "set" && op.Key == 2 && op.Val != total {
+				ok = false
+			}
+		}
+		c.AbortOnErr = ok
+	}
 	if g.Chance(25) { // an earlier exchange through the same chain: oversized, flushed, or ordinary
 		switch g.Intn(4) {
 		case 3: // aborted mid-body (compressible content): nothing of it may leak into the next exchange
@@ -460,6 +482,9 @@ func wrCorpus() []WrCase {
 		{Chain: []WrPlug{sl(10, 100)}, AE: "\x00", Method: "GET", Script: []WrOp{{K: "set", Key: 10, Val: 7}, {K: "head", Code: 103}, {K: "head", Code: 200}, {K: "write", N: 2}}},
 		{Chain: []WrPlug{sl(10, 16)}, AE: "\x00", Method: "GET", Script: []WrOp{{K: "set", Key: 1, Val: 2}, {K: "write", N: 16}}},
 		{Chain: []WrPlug{sl(10, 16)}, AE: "\x00", Method: "GET", Script: []WrOp{{K: "set", Key: 1, Val: 2}, {K: "write", N: 17}}},
+		// what the proxy does: declared length above the limit, the copy fails, the handler is aborted: the 413 must still arrive
+		{Chain: []WrPlug{sl(10, 16)}, AE: "\x00", Method: "GET", AbortOnErr: true, Script: []WrOp{{K: "set", Key: 1, Val: 2}, {K: "set", Key: 2, Val: 17}, {K: "head", Code: 200}, {K: "write", N: 17}}},
+		{Chain: []WrPlug{{Name: "logging"}, sl(10, 16)}, AE: "\x00", Method: "GET", AbortOnErr: true, Script: []WrOp{{K: "write", N: 9}, {K: "flush"}, {K: "write", N: 9}}},
 		{Chain: []WrPlug{sl(10, 16)}, AE: "\x00", Method: "GET", Script: []WrOp{{K: "head", Code: 201}, {K: "write", N: 9}, {K: "write", N: 7}, {K: "write", N: 1}}},
 		{Chain: []WrPlug{sl(8, 16)}, AE: "\x00", Method: "POST", ReqLen: 8, ReqFraming: "cl", Script: []WrOp{{K: "write", N: 3}}},
 		{Chain: []WrPlug{sl(8, 16)}, AE: "\x00", Method: "POST", ReqLen: 9, ReqFraming: "cl", Script: []WrOp{{K: "write", N: 3}}},
@@ -481,6 +506,9 @@ func TestWriter(t *testing.T) {
 	idx := 0
 	emit := func(kind string, c WrCase) {
 		if Mine(idx) {
+			if pre, err := json.Marshal(c); err == nil {
+				cw.Begin(idx, kind, pre)
+			}
 			coq, stats := runWrCase(c)
 			repl, _ := json.Marshal(c)
 			cw.Put(Case{Idx: idx, Kind: kind, Coq: coq, Repl: repl, Stats: stats})
